@@ -6,7 +6,7 @@ From Chiri Require Import Base.Bytes Base.Res Model.Tokenizer Model.TagParser Mo
      Proofs.TokenizerProofs Proofs.RenameProofs Proofs.C06Proofs Proofs.SimFlat Proofs.SimStrings
      Model.ListRender Spec.TagGrammar Proofs.SimFront Proofs.SimClean Proofs.SimList
      Proofs.WellNested Proofs.DocMask Proofs.AstCollect Proofs.Idempotent Proofs.RespellBodies Proofs.RenameTags
-     Proofs.RenameClean Proofs.IdempotentUnwrap Proofs.SimBodyUnwrap Proofs.RespellUnwrap.
+     Proofs.RenameClean Proofs.IdempotentUnwrap Proofs.SimBodyUnwrap Proofs.RespellUnwrap Proofs.RenameList.
 
 (** The full statement for delimiters (kept visible): one abstract document (texts and tag bodies,
     Spec/Rename.v) rendered with two spellings of the delimiters cleans to the two renderings of ONE
@@ -187,11 +187,41 @@ Example C18_renaming_unwrap_example :
     Ok (render id_ds id_de (doc_of (to_ast (rename_tast rho_ex ru_out)))).
 Proof. split; [exact ru_first | exact ru_second_computed]. Qed.
 
+(** The listing functions under renaming of the tag names (Proofs/RenameList.v): [list] and [list_all]
+    on the original and on the renamed rendering give items with the same (first line, last line,
+    status) keys - and the JSON outputs are the renderings of those items.  With unwrap-block
+    elements ([strict]) and without; no condition on the end delimiter is needed for listing. *)
+Theorem C18_listing_under_renaming_of_tag_names :
+  forall D rho cfg ds de f,
+    admissible D rho -> cfg_ok D cfg -> tast_ok f -> names_in D f -> strict (to_ast f) ->
+    good_delims ds de ->
+    good_doc ds de (doc_of (to_ast f)) ->
+    (forall t, In t (openers_of f) -> disjoint_from ds de (rho (tg_name t))) ->
+    same_listing cfg (rename_cfg rho cfg) ds de
+                 (doc_of (to_ast f)) (doc_of (to_ast (rename_tast rho f))).
+Proof. exact list_rename_tag_names_unwrap. Qed.
+Print Assumptions C18_listing_under_renaming_of_tag_names.
+
+Theorem C18_listing_under_renaming_without_unwrap :
+  forall D rho cfg ds de f,
+    admissible D rho -> cfg_ok D cfg -> tast_ok f -> names_in D f -> no_unwrap (to_ast f) ->
+    good_delims ds de ->
+    good_doc ds de (doc_of (to_ast f)) ->
+    (forall t, In t (openers_of f) -> disjoint_from ds de (rho (tg_name t))) ->
+    same_listing cfg (rename_cfg rho cfg) ds de
+                 (doc_of (to_ast f)) (doc_of (to_ast (rename_tast rho f))).
+Proof. exact list_rename_tag_names. Qed.
+Print Assumptions C18_listing_under_renaming_without_unwrap.
+
+(** A respelling that changes the number of line breaks inside a tag changes the line ranges:
+    "rm name='f'" respelled as "rm\nname='f'" lists [2,2] against [2,3] (same tree, same decisions). *)
+Example C18_line_breaks_in_tags_matter : _ := rl_line_break_counterexample.
+
 (** What is NOT proved: (1) the case of an end delimiter that begins with a blank when no line of
     blanks runs into it ([dedent_ok] rather than [de_nb]); (2) for the listing functions only the
     line ranges and statuses are compared (as the property says), not the highlighted text of the
-    items; (3) respelling of the tag names for the listing functions, and for
-    documents with tags on wrapper lines / multi-line tags inside unwrapped bodies.  (1)-(3) are validated differentially (metamorphic pairs over 18 delimiter
+    items; (3) respelling of the tag names for documents with tags on wrapper
+    lines / multi-line tags inside unwrapped bodies.  (1)-(3) are validated differentially (metamorphic pairs over 18 delimiter
     spellings x 11 tag-name pairs incl. names that are prefixes / suffixes of each other, clean and
     list) in the check of this property.  The older stage-wise theorems are kept below. *)
 
